@@ -92,3 +92,11 @@ Theorem C15_redecoded_store_is_redecoding : forall E, decoded_env E ->
   Forall (fun kv => decode_segment (encode_segment (snd kv)) = Some (canon_segment (snd kv))) (e_segments E).
 Proof. exact redecoded_env_is_redecoding. Qed.
 Print Assumptions C15_redecoded_store_is_redecoding.
+
+(* ---- the defect found in the unchanged repository, as a kernel-checked refutation of the original code ---- *)
+From LD Require Import Legacy.
+Theorem C15_legacy_refuted :
+  (debug_date_legacy (dy_of_Z (-1)) = two64 - 1 /\ debug_date_legacy (dy_of_Z two64) = two63 /\
+   debug_date_of (dy_of_Z (-1)) = 0 /\ debug_date_of (dy_of_Z 0) = 0)%Z.
+Proof. exact Legacy.C15_legacy_refuted. Qed.
+Print Assumptions C15_legacy_refuted.
